@@ -399,7 +399,7 @@ PROPS["C10"] = {
     "shards": 16,
     "quick_budget_s": 60,
     "thorough_budget_s": 900,
-    "floors": {"any": {"plug:ok": 500, "plug:no-plug": 100, "plug:graph-error": 100, "plug:ok-with-semver-fallback": 50, "valid-outputs": 400}},
+    "floors": {"any": {"two-versions:wiring-as-expected": 14, "plug:ok": 500, "plug:no-plug": 100, "plug:graph-error": 100, "plug:ok-with-semver-fallback": 50, "valid-outputs": 400}},
     "rule": "Each case draws a WIT library (2-4 interfaces, value types only, always versioned: same track / other track / second "
             "package), a socket world (imports: at most one interface per semver track + up to 3 plain functions with one of 4 "
             "fixed signatures; exports: interfaces and a function) and an ordered list of 1-4 plug worlds whose exports are drawn "
